@@ -362,11 +362,29 @@ def r5(ctx):
                         pat = ('ite', ('discr', EE), ((d, step), ('otherwise', cur)))
                         if init == ('field', SELF, 'start_pos') and match(pat, lv) is not None:
                             ok = True
+        recognised = len(loops) == 1
+        if not loops:
+            # iterator form: self.moves.iter().fold(self.start_pos, |b, a| match a { MakeMove(m) => b.make_move_new(m), _ => b })
+            r = norm(s.ret)
+            m = match(call(V('fold'), call('core::slice::<impl [T]>::iter', MOVES), V('init'), ('closure', V('k'), ())), r)
+            if m is not None and isinstance(m['fold'], str) and m['fold'].endswith('::fold'):
+                recognised = True
+                cs = ctx.an().summary(m['k'])
+                d = ctx.facts().enum_discr(ACT, 'MakeMove')
+                if cs is not None:
+                    acc, el = ('param', 2), ('mem', ('p', 3))
+                    step = call('board::Board::make_move_new', acc, ('field', ('variant', el, 'MakeMove'), '0'))
+                    verdict, why = decide_equal(ctx, [('ite', ('discr', el), ((d, step), ('otherwise', acc)))], norm(cs.ret))
+                    ok = verdict == 'ok' and m['init'] == ('field', SELF, 'start_pos')
+                    if verdict == 'inconclusive':
+                        recognised = False
         if ok:
             ctx.ok(R, 'current_position = fold(make_move_new) over exactly the MakeMove actions, in log order, from start_pos', w)
+        elif recognised:
+            ctx.violation(R, 'game::Game::current_position', 'the replay is not `for a in moves { if MakeMove(m) '
+                          '{ pos = pos.make_move_new(m) } }` (or the equivalent fold) starting at start_pos', w)
         else:
-            ctx.violation(R, 'game::Game::current_position', 'replay loop does not have the shape `for a in moves { if MakeMove(m) '
-                          '{ pos = pos.make_move_new(m) } }` starting at start_pos', w)
+            ctx.inconclusive(R, 'current_position: replay neither a single loop over the action log nor iter().fold(start_pos, ..): ' + sh(norm(s.ret), 200))
     s = summary(ctx, 'game::Game::side_to_move', R)
     if s is not None:
         w = where(s.body)
@@ -378,21 +396,42 @@ def r5(ctx):
         start = call('<color::Color as core::cmp::PartialEq>::eq', call('board::Board::side_to_move', ('field', SELF, 'start_pos')),
                      ENUM('color::Color', 'White'))
         W, B = ENUM('color::Color', 'White'), ENUM('color::Color', 'Black')
-        pat = ('ite', ('bin', 'Eq', ('bin', 'Rem', ('bin', 'Add', cnt, ('ite', start, ((0, INT(1)), ('otherwise', INT(0))))), INT(2)), INT(0)),
-               ((0, B), ('otherwise', W)))
-        m = match(pat, r)
+        # semantic reading: replace the MakeMove count by n and the start side by a colour, fold, compare with the parity rule
+        il = inliner(ctx)
+        d = ctx.facts().enum_discr(ACT, 'MakeMove')
+        cnts = [x for x in walk(r) if match(cnt, x) is not None]
         okc = False
-        if m is not None:
+        for x in cnts:
+            m = match(cnt, x)
             cs = ctx.an().summary(m['k'])
-            d = ctx.facts().enum_discr(ACT, 'MakeMove')
-            if cs is not None:
-                cr = norm(cs.ret)
-                if match(('ite', ('discr', ANY), ((d, ('int', 1, 'bool')), ('otherwise', ('int', 0, 'bool')))), cr) is not None:
-                    okc = True
-        if m is not None and okc:
-            ctx.ok(R, 'side_to_move = White iff (#MakeMove + [start side is Black]) is even', w)
+            if cs is not None and match(('ite', ('discr', ANY), ((d, ('int', 1, 'bool')), ('otherwise', ('int', 0, 'bool')))), norm(cs.ret)) is not None:
+                okc = True
+        startside = call('board::Board::side_to_move', ('field', SELF, 'start_pos'))
+
+        def repl(e, n, colour):
+            if isinstance(e, tuple) and e:
+                if match(cnt, e) is not None:
+                    return ('int', n, 'usize')
+                if match(startside, e) is not None or e == ('field', ('field', SELF, 'start_pos'), 'side_to_move'):
+                    return colour
+                return tuple(repl(y, n, colour) if isinstance(y, tuple) else y for y in e)
+            return e
+        bad = []
+        undecided = False
+        for n_ in range(4):
+            for colour in (W, B):
+                v = norm(il.fold(repl(r, n_, colour)))
+                want = W if (n_ + (colour == B)) % 2 == 0 else B
+                if v[0] != 'enum':
+                    undecided = True
+                elif v != want:
+                    bad.append('%d moves from a %s start -> %s' % (n_, colour[2], v[2]))
+        if not cnts or not okc or undecided:
+            ctx.inconclusive(R, 'side_to_move: not a function of (number of MakeMove actions, start side) in a recognised form: ' + sh(r, 200))
+        elif bad:
+            ctx.violation(R, 'game::Game::side_to_move', 'side_to_move is not the parity of the MakeMove count plus the start side: ' + '; '.join(bad[:3]), w)
         else:
-            ctx.violation(R, 'game::Game::side_to_move', 'side_to_move is not the parity of the MakeMove count plus the start side: ' + sh(r, 300), w)
+            ctx.ok(R, 'side_to_move = White iff (#MakeMove + [start side is Black]) is even', w)
 
 
 def r6(ctx):
